@@ -13,7 +13,7 @@
 (*                                                                         *)
 (* Run:  TRACE=<file> tlc -workers 1 -config TraceLib.cfg TraceLib.tla     *)
 (***************************************************************************)
-EXTENDS Clauses, TLC, Json, IOUtils
+EXTENDS Space, TLC, Json, IOUtils
 
 Rec == ndJsonDeserialize(IOEnv.TRACE)
 NRec == Len(Rec)
@@ -563,6 +563,81 @@ Crash ==
            tag == "crash." \o e.ek \o "." \o e.m
        IN  Advance(ResBad(Mis(e, o, tag, 0, 0, CRASH, {}), {tag}), << >>)
 
+Abs(x) == IF x < 0 THEN -x ELSE x
+
+Check(e, o, tag, cond, got, exp) ==
+    IF cond THEN ResOk(1, {tag}) ELSE ResBad(Mis(e, o, tag, 0, 0, got, exp), {tag})
+
+\* retained and reported bytes (C14, C15, C16)
+SpaceEv ==
+    /\ IsEv("space")
+    /\ LET e == Ev
+       IN  IF ~Live(e.o) \/ objs[e.o].line = 0 THEN Advance(ResOk(0, {}), objs)
+           ELSE LET o == objs[e.o]
+                    n == Len(SeqOf(o))
+                    kind == o.kind
+                    isT == o.fam = "T"
+                    fam == IF isT THEN TreeFamOf(kind) ELSE kind
+                    mx == IF isT THEN TMeta[o.line].maxsym ELSE <<0>>
+                    huff == isT /\ fam \in {"HQWT", "HWT"}
+                    maxint == IF huff /\ SymSmall(mx) THEN SymToInt(mx) ELSE 0
+                    hasheap == e.heap >= 0
+                    actual == e.heap + e.selfsz
+                    levels == IF huff THEN Len(e.lens)
+                              ELSE IF fam = "QWT" THEN QuadLevels(mx)
+                              ELSE IF fam = "WT" THEN BinLevels(mx) ELSE 1
+                    scaled == IF e.rep < 0 THEN ResOk(0, {})
+                              ELSE Check(e, o, "space.scaled", e.kib = e.rep /\ e.mib = e.rep /\ e.gib = e.rep,
+                                         <<e.kib, e.mib, e.gib>>, {<<e.rep, e.rep, e.rep>>})
+                    tol == ReportTolerance(actual, levels + 2, huff, maxint)
+                    reported == IF e.rep < 0 \/ ~hasheap THEN ResOk(0, {})
+                                ELSE Check(e, o, "space.reported." \o fam, Abs(e.rep - actual) <= tol,
+                                           e.rep, {actual, tol})
+                    pb == PlainHeapBound(kind, n, mx)
+                    bound == IF ~hasheap \/ pb < 0 THEN ResOk(0, {})
+                             ELSE Check(e, o, "space.bound." \o fam, e.heap <= pb, e.heap, {pb})
+                    used == IF isT THEN TMeta[o.line].used ELSE {}
+                    cnts == [id \in used |-> CountIn(Rec[o.line].segs, id)]
+                    ld == IF huff THEN HuffLevelBits(kind, e.lens) ELSE 0
+                    hb == IF huff THEN HuffHeapBound(kind, e.lens, maxint) ELSE 0
+                    hf == IF ~huff \/ n = 0 THEN << >>
+                          ELSE <<Check(e, o, "space.huff.entropy." \o fam,
+                                       64 * ld <= NH0Hi64(n, cnts) + 64 * HuffFrag(kind) * n,
+                                       ld, {NH0Hi64(n, cnts) \div 64, HuffFrag(kind) * n}),
+                                 Check(e, o, "space.huff.not_above_plain." \o fam,
+                                       ld <= PlainLevelBits(kind, n, mx), ld, {PlainLevelBits(kind, n, mx)})>>
+                                \o (IF hasheap THEN <<Check(e, o, "space.huff.heap." \o fam, e.heap <= hb, e.heap, {hb})>> ELSE << >>)
+                IN  Advance(Merge(<<scaled, reported, bound>> \o hf), objs)
+
+\* word-level utilities (C17)
+UtilEv ==
+    /\ IsEv("util")
+    /\ LET e == Ev
+           o == NoObj
+           res == IF e.m = "select_in_word"
+                  THEN Merge([t \in 1..Len(e.ks) |->
+                         Check(e, o, IF e.ks[t] < Len(e.w) THEN "util.select_in_word.found" ELSE "util.select_in_word.not_found",
+                               e.out[t] = SelectInWord(e.w, e.ks[t], 64), e.out[t], {SelectInWord(e.w, e.ks[t], 64)})])
+                  ELSE IF e.m = "select_in_word_u128"
+                  THEN Merge([t \in 1..Len(e.ks) |->
+                         Check(e, o, IF e.ks[t] < Len(e.w) THEN "util.select_in_word_u128.found" ELSE "util.select_in_word_u128.not_found",
+                               e.out[t] = SelectInWord(e.w, e.ks[t], 128), e.out[t], {SelectInWord(e.w, e.ks[t], 128)})])
+                  ELSE IF e.m = "popcnt_wide"
+                  THEN Check(e, o, "util.popcnt_wide", e.out = PopcntWide(e.ws, e.n), e.out, {PopcntWide(e.ws, e.n)})
+                  ELSE IF e.m = "msb"
+                  THEN Check(e, o, "util.msb." \o e.ty, e.out = MsbOf(e.v), e.out, {MsbOf(e.v)})
+                  ELSE IF e.m \in {"part4", "part2"}
+                  THEN LET nb == IF e.m = "part4" THEN 2 ELSE 1
+                           inp == [q \in 1..Len(e.seq) |-> e.alpha[e.seq[q]]]
+                           exp == StablePartition(inp, e.shift, nb)
+                       IN  Check(e, o, "util." \o e.m \o "." \o e.ty \o (IF e.shift >= 64 THEN ".shift_ge_64" ELSE ""),
+                                 e.out = exp, e.out, {exp})
+                  ELSE IF e.m = "text_remap"
+                  THEN Merge(<<Check(e, o, "util.text_remap.size", e.d = TextRemapSize(e.bytes), e.d, {TextRemapSize(e.bytes)}),
+                               Check(e, o, "util.text_remap.map", e.out = TextRemapSeq(e.bytes), e.out, {TextRemapSeq(e.bytes)})>>)
+                  ELSE ResOk(0, {})
+       IN  Advance(res, objs)
+
 \* the same call in two builds of the crate (prefetch feature on / off)
 XB ==
     /\ IsEv("xb")
@@ -574,7 +649,7 @@ XB ==
 Other ==
     /\ l <= NRec
     /\ Rec[l].k \notin {"reset", "newt", "newq", "newb", "meta", "qg", "relm", "relo", "uq", "mut",
-                        "conv", "drop", "eq", "ith", "thr", "pure", "crash", "xb"}
+                        "conv", "drop", "eq", "ith", "thr", "pure", "crash", "xb", "space", "util"}
     /\ Advance(ResOk(0, {}), objs)
 
 Finish ==
@@ -586,7 +661,7 @@ Finish ==
 Init == /\ l = 1 /\ objs = << >> /\ nbad = 0 /\ ncell = 0 /\ cov = {} /\ done = FALSE
 
 Next == \/ Reset \/ NewObj \/ Meta \/ QGrid \/ RelM \/ RelO \/ Uq \/ Mut \/ Conv \/ Drop
-        \/ EqEv \/ Ith \/ Thr \/ Pure \/ Crash \/ XB \/ Other \/ Finish
+        \/ EqEv \/ Ith \/ Thr \/ Pure \/ Crash \/ XB \/ SpaceEv \/ UtilEv \/ Other \/ Finish
 
 Spec == Init /\ [][Next]_vars
 
